@@ -118,6 +118,32 @@ PROPS = {
         "assumptions": ["USD value of one holding fits int64 and stakes fit uint64 (DESIGN §8 preconditions)", "balances < 2^62",
                         "trigger condition (height % 144, snapshot taken before balance changes) is SyncBlock glue: see C15/C02 glue harness"],
     },
+    "C02": {
+        "asserts": ["C02.", "uncaught-panic"],
+        "harnesses": [
+            {"id": "syncloop-crash", "func": "VerifSyncLoop", "pkg": NODE, "pkgname": "node", "load": ["./node"],
+             "params": {"quick": {"mode": 0}, "thorough": {"mode": 0}},
+             "must_cover": ["crashed", "completed", "dev-payout-at-2nd-block", "old-burn-zeroing", "v204-mint", "plain"], "max_witness_replays": 8},
+        ] + BATCH_HARNESSES[:1],
+        "wall": {"quick": 400, "thorough": 3000},
+        "bounds": {"quick": "the real DBlockSync/SyncBlock loop over 2 blocks in 7 scenarios (developer payout block, both burn-address zeroings, 2.0.4 mint and its burn, a holder-snapshot height, plain heights) with Factom requests stubbed to blocks without tracked entries; crash oracle: the process is killed at EVERY DB-API call of the run (28..509 call sites per scenario), a new process resumes; plus the handle-discipline monitor (no write outside the block transaction) in the batch harness",
+                   "thorough": "same"},
+        "assumptions": ["SQLite/database-sql contract: a transaction's writes become visible and durable atomically at COMMIT and not at all otherwise; a killed process = all connections dropped without commit (what SQLite does inside a statement or COMMIT, and torn OS writes, are outside)",
+                        "blocks carry no transaction/OPR/SPR entries in this harness; block content is exercised by the unit harnesses, whose every DB write is checked to go through the block transaction (monitor C02.no-write-outside-block-tx)",
+                        "restart replicates NewPegnetd's resume step (read the sync height from the database); NewPegnetd itself opens files and initialises the LXR hash and is not executed"],
+    },
+    "C10": {
+        "asserts": ["C10.", "uncaught-panic"],
+        "harnesses": [
+            {"id": "syncloop-fault", "func": "VerifSyncLoop", "pkg": NODE, "pkgname": "node", "load": ["./node"],
+             "params": {"quick": {"mode": 1}, "thorough": {"mode": 1}},
+             "must_cover": ["completed", "dev-payout-at-2nd-block", "old-burn-zeroing", "v204-mint"], "max_witness_replays": 8},
+        ],
+        "wall": {"quick": 400, "thorough": 3000},
+        "bounds": {"quick": "as C02's loop harness with the fault oracle: EVERY single DB-API call of the run fails once (error, no effect), or one of the first 8 upstream Factom requests fails once; the loop's own retry then completes the sync", "thorough": "same"},
+        "assumptions": ["single transient fault per run; faults inside multiFetch's goroutines are not modelled (blocks have no entries here); a failed COMMIT leaves nothing applied (go-sqlite3 rolls back)",
+                        "log.Fatal (process exit after an unrecoverable rollback error) counts as 'not committed short'"],
+    },
     "C09": {
         "asserts": ["C09.", "uncaught-panic"],
         "harnesses": [
